@@ -273,6 +273,19 @@ M('c02-guard-flipped', ['C02'], Y23 + 'f1040.py', "FloatField('34', lambda s, i,
 M('c02-reordered-summands', ['C02'], Y23 + 'f1040.py', "FloatField('14', lambda s, i, v: v['12'] + v['13']),", "FloatField('14', lambda s, i, v: float(v['13'] + v['12'])),", None, 'summands reordered and wrapped in float()', 'silent')
 M('c02-guarded-floor', ['C02'], Y23 + 'f1040.py', "FloatField('22', lambda s, i, v: max(0.0, v['18'] - v['21'])),", "FloatField('22', lambda s, i, v: v['18'] - v['21'] if v['18'] > v['21'] else 0.0),", None, 'floor written as a guarded subtraction', 'silent')
 
+# ------------------------------------------------------------------ rules added after round 4 of the seeded changes
+M('k13c-unknown-line-tolerated', ['C06'], S, "                assert ud.dependency in self._field_map\n                self._add_unattempted(self._field_map[ud.dependency])\n", "                if ud.dependency in self._field_map:\n                    self._add_unattempted(self._field_map[ud.dependency])\n", 'K13c', 'an unknown line name no longer stops the solve: the form is re-added and its lines re-queued for ever (seed C06-H)')
+M('k12c-copies-added-from-the-file', ['C04'], S, "        self._solving_fields |= set([f.name() for f in new_form.required_fields()])\n", "        self._solving_fields |= set([f.name() for f in new_form.required_fields()])\n        if form_instance is not None and form_instance.isdigit():\n            for section in self._i:\n                if section.startswith(form_name + ':') and section not in self.forms:\n                    self._add_form(section)\n", 'K12c', 'adding a numbered copy adds every other copy found in the input file, referred to or not (seed C04-G)')
+M('k12c-answers-used-at-once', ['C03', 'C06'], S, "            self._input_dependencies.meet(missing.name())\n", "            self._input_dependencies.meet(missing.name())\n            for field in list(self._input_dependencies.met_dependents()):\n                self._attempt_field(field)\n", 'K12c', 'waiting lines are evaluated right after each answer, in the middle of a round of questions (seed C03-G)')
+M('k18b-write-skipped-while-unwinding', ['C20'], 'habutax/inputs.py', "        with open(filename, 'w') as outfile:\n            self.config.write(outfile)\n", "        import sys, os\n        with open(filename + '.tmp', 'w') as outfile:\n            self.config.write(outfile)\n        if sys.exc_info()[0] is None:\n            os.replace(filename + '.tmp', filename)\n", 'K18b', 'write-back keeps the new file only when no exception is in flight (seed C20-G)')
+M('k18b-atomic-write', ['C20'], 'habutax/inputs.py', "        with open(filename, 'w') as outfile:\n            self.config.write(outfile)\n", "        import os\n        with open(filename + '.tmp', 'w') as outfile:\n            self.config.write(outfile)\n        os.replace(filename + '.tmp', filename)\n", None, 'write to a temporary file and move it over the target unconditionally', 'silent')
+M('k11h-ssn-isdigit', ['C11'], 'habutax/inputs.py', "        for n in ssn:\n            if n not in \"0123456789\":\n                return False\n        return True\n", "        return ssn.isdigit()\n", 'K11h', 'SSN digits tested with str.isdigit(): Unicode digits pass (seed C11-H)')
+M('k23g-stale-box-text', ['C18', 'C19'], 'habutax/pdf_filler.py', "                assert field_name not in required_fields\n                string_value = \"\"\n", "                assert field_name not in required_fields\n", 'K23g', 'an uncomputed optional line leaves the text of the previous box in place (seed C18-G)', accept_error=True)
+M('k22f-solution-through-a-filter', ['C14'], CLI, "            solution.write(outfile)\n", "            class _Tidy(object):\n                def __init__(self, f):\n                    self.f = f\n                def write(self, t):\n                    self.f.write('\\n'.join(l.rstrip() for l in t.splitlines()) + '\\n')\n            solution.write(_Tidy(outfile))\n", 'K22f', 'the solution is re-split by a tidying wrapper before it reaches the file (seed C14-H)')
+M('r151-owed-blank-under-a-dollar', ['C15', 'C16'], Y22 + 'f1040.py', "FloatField('37', lambda s, i, v: None if v['33'] > v['24'] else v['24'] - v['33']),", "FloatField('37', lambda s, i, v: None if v['33'] > v['24'] or v['24'] - v['33'] < 1.0 else v['24'] - v['33']),", 'R15.1', 'a balance due under one dollar is left blank: overpayment minus amount owed no longer equals payments minus tax (seeds C15-H, C16-H)')
+M('r161-count-of-another-form', ['C16'], Y23 + 'f1040_sa.py', "for n in range(i['1040.number_1099-div']))", "for n in range(i['1040.number_1099-int']))", 'R16.1', 'copies of Form 1099-DIV enumerated up to the number of Forms 1099-INT (seed C16-G)')
+M('r102-enum-loop-instance', ['C10'], Y21 + 'f1040.py', "                    line_4b += v['8606:you.taxable_amount']\n", "                    for owner in enum.taxpayer_or_spouse:\n                        line_4b += v[f'8606:{owner}.taxable_amount'] * 0.5\n", 'R10', 'form instance built from an enumeration member name that is not an instance of Form 8606 (seed C10-G)', accept_error=True)
+
 # ------------------------------------------------------------------ rules added after round 3 of the seeded changes
 M('k10-unimplemented-stops-prompting', ['C05', 'C06', 'C13'], S, "            self._unimplemented_fields.append(fni.field_name)", "            self._unimplemented_fields.append(fni.field_name)\n            self._refused_input = True", 'K10', 'an unimplemented line stops all further questions: typed values are reported missing, file values are used (seed C05-E)')
 M('k21e-enum-definition-wrapped', ['C12'], FI, "        super().__init__(name, value_fn, enum)\n", "        def by_name(s, i, v):\n            answer = value_fn(s, i, v)\n            return enum[answer] if isinstance(answer, str) and answer in enum.__members__ else answer\n        super().__init__(name, by_name, enum)\n", 'K21e', 'EnumField wraps the definition and converts option names to members before the type check (seed C12-F)')
